@@ -42,6 +42,7 @@ const (
 	compOpAll  = "_all"
 	compOpNone = "_none"
 	opNot      = "_not"
+	opOr       = "_or"
 	// it's just there for composite indexes. We construct a slice of value matchers with
 	// every matcher being responsible for a corresponding field in the index to match.
 	// For some fields there might not be any criteria to match. For examples if you have
